@@ -21,16 +21,28 @@ Scope: every ADT defined under pallas-primitives/src/ except plutus_data.rs (C07
      emits one canonical form: Vec, BTreeMap, Set, NonEmptySet, derive-generated map structs) is reachable — otherwise some
      accepted block re-encodes to different bytes.
 
+ (6) R-DOMAIN   value-domain duality of the hand-written pairs of (1): in the product run of the decoder against an encoder
+     arm, a test whose outcome the arm's shape decides (tag, declared length, constant label, head type) is *structural*;
+     a test on data the arm leaves open (the payload values the encoder writes as given) forks the run.  A forked leaf on
+     which the decoder returns its own `Err` (or panics) means: among the values this arm encodes there are some the
+     decoder refuses — the decoder's domain is narrower than the encoder's.  It is reported, naming the comparison, unless
+     the same predicate is enforced on the value side: the encoder arm refuses / excludes it (its path facts then decide
+     the decoder's test), or the compared field is private and every construction site of the type in the crate is
+     dominated by a guard excluding the rejected value (R-CTORS), or the exact key is reviewed in
+     tables/codec_opaque_C06.json `value_guards`.
+
 Not decided: equality of field values; the index <-> field tables of derive-generated codecs (minicbor-derive) and of
 CostModels::decode; records the ledger could write with an indefinite header; non-minimal integer / length heads outside
 raw wrappers."""
+import contextlib
 import json
 import os
+import re
 
 from pv import facts
 from pv.report import Result, finish
 from pv.hirwalk import walk
-from pv.x_codec import (Model, load_table, shape_str, Arm, Tok, Unanalysable, parse_type, type_str, DEC_T)
+from pv.x_codec import (Model, Interp, val_str, load_table, shape_str, Arm, Tok, Unanalysable, parse_type, type_str, DEC_T)
 from pv.x_preserve import Classes, fields_of, short
 
 CRATE = "pallas_primitives"
@@ -53,7 +65,7 @@ def load_codec_table():
     t = json.loads(json.dumps(load_table()))
     p = os.path.join(facts.VERIF, "tables", "codec_opaque_C06.json")
     own = json.load(open(p)) if os.path.exists(p) else {}
-    for sec in ("opaque", "fragments", "raw_heads", "param_arity"):
+    for sec in ("opaque", "fragments", "raw_heads", "param_arity", "value_guards"):
         t.setdefault(sec, {}).update(own.get(sec, {}))
     return t, own
 
@@ -121,6 +133,176 @@ def pairs_clause(res, m, adts, table, used_table):
         for n in r.notes:
             res.notes.append("%s: %s" % (short(adt), n))
     return reps
+
+
+# ---------------------------------------------------------------------------------------------- (6) R-DOMAIN
+_OPS = {"Eq": "==", "Ne": "!=", "Lt": "<", "Le": "<=", "Gt": ">", "Ge": ">="}
+_NEG = {"Eq": "Ne", "Ne": "Eq", "Lt": "Ge", "Ge": "Lt", "Gt": "Le", "Le": "Gt"}
+
+
+@contextlib.contextmanager
+def named_conditions():
+    """While active, a fork of the interpreter on a comparison it cannot decide is labelled with the comparison itself
+    (`self.numerator>self.denominator`) instead of an ordinal `cond#k`.  Labels are informational in the engine (decoder
+    runs never read them), so this only makes the leaves of run_decoder self-describing; the engine file is not edited."""
+    orig = Interp.truth
+
+    def truth(self, v, s):
+        n0 = len(s.labels)
+        out = orig(self, v, s)
+        try:
+            w, neg = v, False
+            while w[0] == "not":
+                w, neg = w[1], not neg
+            if w[0] == "cmp" and len(out) == 2 and w[1] in _OPS:
+                for st, b in out:
+                    if len(st.labels) == n0 + 1 and "cond#" in st.labels[-1]:
+                        op = w[1] if (b != neg) else _NEG[w[1]]
+                        st.labels[-1] = "%s%s%s" % (val_str(w[2]), _OPS[op], val_str(w[3]))
+        except Exception:
+            pass
+        return out
+    Interp.truth = truth
+    try:
+        yield
+    finally:
+        Interp.truth = orig
+
+
+class CtorInvariants:
+    """R-CTORS on demand (MIR): is `field` of `adt` private, and is every construction site of the ADT in the crate, other
+    than its Decode / serde impls, dominated by a guard that excludes `field == c` (resp. forces it)?"""
+
+    def __init__(self):
+        self.P = None
+
+    def prog(self):
+        if self.P is None:
+            from pv.program import Program
+            self.P = Program(crates=[CRATE])
+        return self.P
+
+    def holds(self, adt_fact, variant, field, fact):
+        """fact: ('eq', c) = the decoder refuses field == c ; ('ne', {c..}) = it refuses field not in {c..}"""
+        from pv import flow, guards
+        vs = [v for v in adt_fact["variants"] if variant in (None, v["name"])]
+        if len(vs) != 1:
+            return False, "variant not determined"
+        idx = next((i for i, f in enumerate(vs[0]["fields"]) if f["name"] == field), None)
+        if idx is None:
+            return False, "no such field"
+        if "Public" in str(vs[0]["fields"][idx].get("vis")):
+            return False, "field `%s` is public: any crate can build the refused value" % field
+        P = self.prog()
+        n = 0
+        for f in P.fns.values():
+            tr = f.b.get("impl_trait") or ""
+            for bi, si, rv in flow.aggregates(f, "^" + re.escape(adt_fact["path"]) + "$", vs[0]["name"] if adt_fact.get("kind") == "Enum" else None):
+                if tr == "minicbor::decode::Decode" or "serde" in tr or "serde" in f.path or "Deserialize" in f.path:
+                    continue
+                n += 1
+                val = f.sym_operand(rv["fields"][idx])
+                ok = f.b.get("impl_adt") == adt_fact["path"] and _copies_field(val, field, idx)     # Clone / functional update of an existing value
+                for g in guards.facts_at_term(f, bi):
+                    for op, l, r in g.oriented():
+                        if l != val or r[0] != "const":
+                            continue
+                        try:
+                            k = int(r[1])
+                        except (TypeError, ValueError):
+                            continue
+                        if fact[0] == "eq":
+                            c = fact[1]
+                            if (op == "Ne" and k == c) or (op == "Gt" and k >= c) or (op == "Ge" and k > c) or (op == "Lt" and k <= c) or (op == "Le" and k < c):
+                                ok = True
+                        elif fact[0] == "ne" and op == "Eq" and k in fact[1]:
+                            ok = True
+                if not ok:
+                    return False, "%s builds the type without a dominating guard on `%s`" % (f.path, field)
+        return True, "%d construction site(s), each guarded" % n
+
+
+def _copies_field(val, field, idx):
+    """the operand is the same field of an existing value, through refs / derefs / clone-like calls only"""
+    for _ in range(12):
+        if not isinstance(val, tuple) or not val:
+            return False
+        k = val[0]
+        if k in ("ref", "deref", "copy", "move"):
+            val = val[1]
+        elif k == "call" and len(val) > 2 and len(val[2]) == 1 and re.search(r"::(clone|to_owned|borrow|as_ref|deref|into|from)$", str(val[1])):
+            val = val[2][0]
+        elif k == "field":
+            return str(val[2]) in (field, str(idx))
+        else:
+            return False
+    return False
+
+
+def _parse_self_field(key):
+    m_ = re.match(r"^self\.([A-Za-z_0-9]+)$", key)
+    return m_.group(1) if m_ else None
+
+
+def domain_clause(res, m, reps, table, used_table, all_adts):
+    reviewed = table.get("value_guards", {})
+    inv = CtorInvariants()
+    n_runs = n_forked = 0
+    with named_conditions():
+        for adt, rep in sorted(reps.items()):
+            for im, arm in rep.arms:
+                if arm.kind != "ok" or arm.problems:
+                    continue
+                decs = [d for d in rep.dec if d.self_ty == im.self_ty] or rep.dec
+                for dm in decs:
+                    keep = []
+                    try:
+                        leaves = m.run_decoder(dm, arm, keep)
+                    except Unanalysable:
+                        continue            # already a finding of clause (1)
+                    n_runs += 1
+                    seen = set()
+                    for lf, (status, val, st) in zip(leaves, keep):
+                        if not lf[1]:
+                            continue        # decided by the arm's shape: structural, judged by clause (1)
+                        n_forked += 1
+                        if lf[0] not in ("rejects", "panics"):
+                            continue
+                        new_facts = {k: f for k, f in st.facts.items() if arm.facts.get(k) != f}
+                        conds = [l for l in st.labels]
+                        cond_txt = "&".join(conds) if conds else "data-dependent"
+                        if cond_txt in seen:
+                            continue
+                        seen.add(cond_txt)
+                        key = "domain:%s:%s:refuses(%s)" % (adt, arm.label, cond_txt.replace(" ", ""))
+                        where = "%s (encoder arm at %s:%s)" % (dm.where, im.file, arm.line or im.line)
+                        # constructor invariant: one conjunct that no constructible value satisfies makes the leaf unreachable
+                        why_not = []
+                        covered = None
+                        for k, f in sorted(new_facts.items()):
+                            fld = _parse_self_field(k)
+                            if fld is None or f[0] not in ("eq", "ne"):
+                                continue
+                            okk, why = inv.holds(all_adts[adt], arm.variant, fld, f)
+                            if okk:
+                                covered = "%s: %s" % (k, why)
+                                break
+                            why_not.append(why)
+                        if covered:
+                            res.ok(key, "R-CTORS", "the decoder refuses what no constructor of the type can build (%s)" % covered)
+                            continue
+                        if key in reviewed:
+                            used_table.add("value_guards:" + key)
+                            res.ok(key, "table", reviewed[key])
+                            continue
+                        res.violation(key, "Decode of %s %s when %s, but encoder arm %s writes such values as given [%s]: the decoder accepts fewer values than the encoder produces, so these values "
+                                           "do not round-trip and chain data carrying them no longer decodes%s" % (
+                                               short(adt), "panics" if lf[0] == "panics" else "returns its own error", " and ".join(conds) if conds else "a data-dependent test holds",
+                                               arm.label, shape_str(arm.tokens), ("  (no value-side invariant found: %s)" % "; ".join(sorted(set(why_not)))) if why_not else ""),
+                                      where=where, rule="R-DOMAIN")
+                    if not any(lf[1] and lf[0] in ("rejects", "panics") for lf in leaves):
+                        res.ok("domain:%s:%s" % (adt, arm.label), "R-DOMAIN", "no refusal depends on payload values (%d data-dependent leaves, all accepted or type-directed)" % sum(1 for lf in leaves if lf[1]))
+    return n_runs, n_forked
 
 
 # ---------------------------------------------------------------------------------------------- (3) R-INJ
@@ -575,6 +757,11 @@ def run(tier):
         res.notes.append("%s has a Decode but no Encode impl: nothing to round-trip" % short(p))
     res.count("types with a hand codec on one side only (not paired)", len(enc_only) + len(dec_only))
 
+    # ---- (6) value-domain duality
+    n_runs, n_forked = domain_clause(res, m, reps, table, used, all_adts)
+    res.floor("decoder runs examined for value-dependent refusals (6)", n_runs, 25)
+    res.count("data-dependent decoder leaves (6)", n_forked)
+
     # ---- (3) mixed pairs + injectivity
     n_mixed = mixed_clause(res, m, adts, table, used)
     res.count("mixed pairs (derived on one side, hand-written on the other) (3)", n_mixed)
@@ -609,6 +796,9 @@ def run(tier):
     res.count("type nodes visited from the roots (5)", n_nodes)
 
     # ---- stale table entries
+    for k in own.get("value_guards", {}):
+        if "value_guards:" + k not in used:
+            res.violation("stale-table:%s" % k, "tables/codec_opaque_C06.json `value_guards` lists %s but the decoder no longer refuses on that condition: remove the entry" % k, rule="table")
     for k in own.get("opaque", {}):
         if k not in used:
             res.violation("stale-table:%s" % k, "tables/codec_opaque_C06.json lists %s but no such unanalysable arm exists any more: remove the entry" % k, rule="table")
